@@ -4,11 +4,13 @@
    parametric in the internal vectors they export (arbitrary values = oracle), and the control flow of the three
    entry points.  PROVED: the frame for every sequence of exports / every call whose callback only looks, for every
    oracle and every cut point.  What a theorem about the export functions cannot see -- a write to the circuit from
-   inside an algorithm -- is VALIDATED per run by ./check C03 with the proved checker frame_okb on the C++ circuit
-   before/after every stage run. *)
+   inside an algorithm -- is covered twice: STATICALLY by theorem c03_algorithms_write_only_through_exports over a
+   table of every use of a mutable Circuit in the algorithms' source, regenerated from clang's AST of the tree under
+   check on every run (tools/circuit_access.py -> CircuitAccess_gen.v), and DYNAMICALLY per run by ./check C03 with
+   the proved checker frame_okb on the C++ circuit before/after every stage run. *)
 From Coq Require Import List ZArith Lia Bool.
 Import ListNotations.
-Require Import CV.Orient CV.FreeSpace CV.Api CV.ApiProofs.
+Require Import CV.Orient CV.FreeSpace CV.Api CV.ApiProofs CV.CircuitAccess CV.CircuitAccessProofs CV.CircuitAccess_gen.
 Local Open Scope Z_scope.
 
 (* [F] each export function keeps widths, heights, fixed and obstruction flags, polarities, net limits, pin cells, pin
@@ -45,6 +47,22 @@ Proof. exact frame_okb_correct. Qed.
 Theorem c03_orient_keptb_correct : forall a b, orient_keptb a b = true <-> cellO a = cellO b.
 Proof. exact orient_keptb_correct. Qed.
 
+(* [F over the GENERATED table; the translator is trusted] the abstraction of Api.v is justified for the source of
+   this run: among all functions of src/place_global, src/place_detailed and src/*.cpp other than Circuit's own
+   members, there is a set R containing GlobalPlacer::place, DetailedPlacer::place and DetailedPlacer::legalize and
+   closed under "hands the mutable circuit on" (by reference argument, or by storing it in a member of the class)
+   such that every use of a mutable circuit is a read, a hand-over, a write of one of the two bookkeeping flags, or
+   one of the eight writes (cellX_/cellY_/cellOrientation_ inside the three export functions) modelled by
+   export_glob / export_leg / export_det; a function outside R may contain other placement writes only because no
+   stage can reach it; no non-const Circuit method is called, nothing is unclassified, no const_cast/mutable exists;
+   and nothing reachable from GlobalPlacer::place writes an orientation.  The boolean rule is evaluated on the table
+   of the tree under check; circuit_uses_okb_sound lifts it to the Prop-level reading [uses_ok]. *)
+Theorem c03_algorithms_write_only_through_exports : uses_ok circuit_uses.
+Proof. exact (circuit_uses_okb_sound circuit_uses (eq_refl true)). Qed.
+
+Theorem c03_access_rule_sound : forall uses, circuit_uses_okb uses = true -> uses_ok uses.
+Proof. exact circuit_uses_okb_sound. Qed.
+
 (* ---- non-vacuity: a fixed cell between two movable ones; the legalizer's parallel index skips it; the checker accepts
    the result and rejects a circuit in which the fixed cell moved *)
 Example c03_nonvacuous :
@@ -68,3 +86,5 @@ Print Assumptions c03_global_keeps_orientation.
 Print Assumptions c03_global_keeps_orientation_call.
 Print Assumptions c03_frame_okb_correct.
 Print Assumptions c03_orient_keptb_correct.
+Print Assumptions c03_algorithms_write_only_through_exports.
+Print Assumptions c03_access_rule_sound.
